@@ -85,6 +85,9 @@ BRIDGE_CFG = {
                                   Deltas="DeltasSmall", Modes="ModesFixed", MaxLen=4)),
         ("modes/len3", dict(Sources="SrcOne", PtAlpha="{0, 96, 101}", Tables="TablesAll", StartTs="StartEdge",
                             Deltas="DeltasSmall", Modes="ModesAll", MaxLen=3)),
+        # deep random behaviours: TLC prints every continuation of the last step of each simulated behaviour
+        ("deep/sim", dict(Sources="SrcTwo", PtAlpha="{0, 96, 101}", Tables="TablesAll", StartTs="StartEdge",
+                          Deltas="DeltasFull", Modes="ModesAll", MaxLen=10, sim=(120, 10))),
     ],
     "thorough": [
         ("one-source/len5", dict(Sources="SrcOne", PtAlpha="{0, 101}", Tables="TablesQuick", StartTs="StartWrap",
@@ -95,6 +98,8 @@ BRIDGE_CFG = {
                                   Deltas="DeltasSmall", Modes="ModesFixed", MaxLen=5)),
         ("modes/len4", dict(Sources="SrcOne", PtAlpha="{0, 96, 101}", Tables="TablesAll", StartTs="StartEdge",
                             Deltas="DeltasSmall", Modes="ModesAll", MaxLen=4)),
+        ("deep/sim", dict(Sources="SrcTwo", PtAlpha="{0, 96, 101}", Tables="TablesAll", StartTs="StartEdge",
+                          Deltas="DeltasFull", Modes="ModesAll", MaxLen=16, sim=(2500, 16))),
         ("modes/two-sources/len3", dict(Sources="SrcTwo", PtAlpha="{0, 96, 101}", Tables="TablesAll", StartTs="StartEdge",
                                         Deltas="DeltasSmall", Modes="ModesAll", MaxLen=3)),
     ],
